@@ -2,4 +2,4 @@ SPECIFICATION Spec
 CONSTANTS
   MaxItems = 3
   UniverseName = "core"
-INVARIANTS TypeOK SizeLaw CursorInside CursorIsOffset EndExactly LastAgrees ByteModel BrokenOnlyAfterCompositeThrow
+INVARIANTS TypeOK SizeLaw CursorInside CursorIsOffset EndExactly RoundTrip LastAgrees ByteModel BrokenOnlyAfterCompositeThrow
